@@ -109,6 +109,37 @@ def genLine (ws : List String) : String :=
     | _, _, _ => "bad-op"
   | _ => "bad-op"
 
+/-- stateful translation-unit protocol: `unit uniq0 count0`, then `fn <sexpr>` per function
+    definition in source order, then `end`: prints one `code <i> <skeleton>` line per function
+    (or `err <why>` for the unit) -/
+partial def genLoop (h : IO.FS.Stream) (u0 c0 : Nat) (fs : List SStmt) : IO UInt32 := do
+  let line ← h.getLine
+  if line.isEmpty then return 0
+  let ws := tokenize line.trimAscii.toString
+  match ws with
+  | [] => genLoop h u0 c0 fs
+  | ["unit", u, c] =>
+    match u.toNat?, c.toNat? with
+    | some u, some c => IO.println "unit"; genLoop h u c []
+    | _, _ => IO.println "bad-op"; genLoop h u0 c0 fs
+  | "fn" :: rest =>
+    match readS rest with
+    | some s => IO.println "fn"; genLoop h u0 c0 (fs ++ [s])
+    | none => IO.println "bad-op"; genLoop h u0 c0 fs
+  | ["end"] =>
+    match parseUnit u0 fs with
+    | .error e => IO.println ("err " ++ showErr e)
+    | .ok (sts, u1) =>
+      let codes := genUnit sts c0
+      let mut i := 0
+      for code in codes do
+        let ls := code.map (CIns.toLine s!"f{i}")
+        IO.println (s!"code {i} " ++ "|".intercalate (ls.map fun l => (Asm.Line.render l).trimAscii.toString))
+        i := i + 1
+      IO.println s!"end uniq={u1}"
+    genLoop h u0 c0 []
+  | _ => IO.println "bad-op"; genLoop h u0 c0 fs
+
 def execLine (ws : List String) : String :=
   match ws with
   | fuel :: vals :: rest =>
@@ -192,11 +223,12 @@ def main (args : List String) : IO UInt32 := do
   let h ← IO.getStdin
   match args with
   | "gen" :: _ => loop h genLine
+  | "unit" :: _ => genLoop h 0 1 []
   | "exec" :: _ => loop h execLine
   | "mrun" :: _ => loop h mrunLine
   | "scope" :: _ => scopeLoop h ChibiVerif.Scope.Stack.init
   | _ =>
-    IO.eprintln "usage: drv_c03 gen|exec|mrun|scope"
+    IO.eprintln "usage: drv_c03 gen|unit|exec|mrun|scope"
     return 2
 
 end ChibiVerif.Driver.CtlCmd
